@@ -897,6 +897,23 @@ where
             V::scan(&*e, input, out)?;
         }
         out.push(yielded);
+        // by index and by key: separate accessors, exercised under catch_unwind (-1 None, -2 panic, -3 error)
+        for i in 0..p.len().min(64) {
+            match crate::guarded(|| p.get_by_index(i).map(|o| o.map(|(k, e)| (k, inside::<V>(&*e, input))))) {
+                Ok(Ok(Some((k, f)))) => {
+                    out.push(f);
+                    match crate::guarded(|| p.get(&k).map(|o| o.map(|e| inside::<V>(&*e, input)))) {
+                        Ok(Ok(Some(f2))) => out.push(f2),
+                        Ok(Ok(None)) => out.push(-1),
+                        Ok(Err(_)) => out.push(-3),
+                        Err(()) => out.push(-2),
+                    }
+                }
+                Ok(Ok(None)) => out.push(-1),
+                Ok(Err(_)) => out.push(-3),
+                Err(()) => out.push(-2),
+            }
+        }
         Ok(())
     }
     crate::default_only_inits!();
